@@ -375,6 +375,38 @@ Proof.
     + intros q _ Hne. destruct (Nat.eqb_spec q (r mod T)); [contradiction|ring].
 Qed.
 
+(* ------------------------------------------------------------------ staged = unstaged *)
+
+Lemma unwh_cov_staged_eq m n Kzz Kzx Kxx Kinv S :
+  meq n n (unwh_cov_staged m n Kzz Kzx Kxx Kinv S) (unwh_cov m Kzz Kzx Kxx Kinv S).
+Proof.
+  unfold unwh_cov_staged, unwh_cov. cbv zeta.
+  rewrite (mat_meq m n (mmul m Kinv (mat m n _))).
+  rewrite (mat_meq m n (mmul m (msub Kzz S) (mat m n _))).
+  rewrite (mat_meq m n (mmul m Kinv Kzx)). reflexivity.
+Qed.
+
+Lemma unwh_mean_staged_eq m n Kzx Kinv mx mz mq :
+  meq n 1 (unwh_mean_staged m Kzx Kinv mx mz mq) (unwh_mean m Kzx Kinv mx mz mq).
+Proof.
+  unfold unwh_mean_staged, unwh_mean. cbv zeta.
+  rewrite (mat_meq m 1 (mmul m Kinv (msub mq mz))). reflexivity.
+Qed.
+
+Lemma wh_cov_staged_eq m n A Kxx Sw :
+  meq n n (wh_cov_staged m n A Kxx Sw) (wh_cov m A Kxx Sw).
+Proof.
+  unfold wh_cov_staged, wh_cov. cbv zeta.
+  rewrite (mat_meq m n (mmul m (msub Sw mI) A)). reflexivity.
+Qed.
+
+Lemma unwhiten_cov_staged_eq m L Sw :
+  meq m m (unwhiten_cov_staged m L Sw) (unwhiten_cov m L Sw).
+Proof.
+  unfold unwhiten_cov_staged, unwhiten_cov. cbv zeta.
+  rewrite (mat_meq m m (mmul m Sw (mT L))). reflexivity.
+Qed.
+
 Lemma kl_alg_at_prior n :
   kl_wh_alg n mI mzero = fnat n /\
   (forall Kzz Kinv mz, is_inverse n Kzz Kinv -> kl_unwh_alg n Kinv Kzz mz mz = fnat n).
